@@ -311,6 +311,27 @@ class DocGen:
             self.probe("skip_on_spread")
         return Spread(f.name, dirs)
 
+    def gen_introspection(self, scope):
+        """Introspection meta-fields at the query root (their results are opaque to the reference)."""
+        t = self.t
+        out = []
+        if t.chance(60):
+            key = "__type" if "__type" not in scope else self.fresh_alias(scope)
+            tn = t.choose(list(self.s.types) + ["Int", "Nope"])
+            f = Field("__type", key if key != "__type" else None, [("name", ("str", tn))], [],
+                      [Field("name"), Field("kind"), Field("fields", None, [], [], [Field("name")])])
+            scope[key] = Entry("__type", f.args, "name", ("intro", ()), {})
+            out.append(f)
+            self.probe("introspection___type")
+        if t.chance(60):
+            key = "__schema" if "__schema" not in scope else self.fresh_alias(scope)
+            f = Field("__schema", key if key != "__schema" else None, [], [],
+                      [Field("queryType", None, [], [], [Field("name")]), Field("types", None, [], [], [Field("name"), Field("__typename")])])
+            scope[key] = Entry("__schema", [], "", ("intro", ()), {})
+            out.append(f)
+            self.probe("introspection___schema")
+        return out
+
     # ---- whole document ----------------------------------------------------------------------
     def generate(self):
         t, s, k = self.t, self.s, self.k
@@ -351,6 +372,8 @@ class DocGen:
                 op.sels = [f]
             else:
                 op.sels = self.gen_selset(root, scope, 1)
+                if kind == "query" and t.chance(k["introspection_pct"]):
+                    op.sels.extend(self.gen_introspection(scope))
             op.shorthand = t.chance(50)
             ops.append(op)
         # usage closure
